@@ -11,6 +11,10 @@ fn main() {
         "codec_replay" => vharness::codecrec::codec_replay(&a),
         "mac" => vharness::macdrv::vh_mac(&a),
         "macreplay" => vharness::macdrv::vh_macreplay(&a),
+        "cmds_items" => vharness::cmdrec::cmds_items(&a),
+        "cmds_fields" => vharness::cmdrec::cmds_fields(&a),
+        "idtext" => vharness::cmdrec::idtext(&a),
+        "cmds_replay" => vharness::cmdrec::cmds_replay(&a),
         "fcnt" => vharness::macdrv::vh_fcnt(&a),
         "phy" => vharness::phydrv::vh_phy(&a),
         "phyreplay" => vharness::phydrv::vh_phyreplay(&a),
